@@ -4,6 +4,7 @@ CONSTANTS
   StaticCfg <- EvmCfg
   Dev = {"RefundTruncatedDust"}
   Family = "evm"
+  EvmChain = "ethereum"
   MaxLen = 90
   Amts = {10, 101}
   Fees = {0, 3}
